@@ -20,3 +20,7 @@ pub mod test_utils {
 pub mod common;
 #[cfg(kani)]
 mod c24;
+#[cfg(kani)]
+pub mod hx;
+#[cfg(kani)]
+mod c29;
